@@ -63,7 +63,7 @@ class EEMSRead(Command):
             fill_value=999999 if data_type in (int, numpy.uint) else None,
         )
 
-        if kwargs.get("DataType", "Float") == "Fuzzy":
+        if self.get_argument_value("DataType", "Float") == "Fuzzy":
             fuzzy_pad = 0.01 * (FUZZY_MAX - FUZZY_MIN)
 
             if data.max() > FUZZY_MAX + fuzzy_pad or data.min() < FUZZY_MIN - fuzzy_pad:
